@@ -41,14 +41,16 @@ static bool six_digits(double back, double v, double dim)
 
 static void tables(unsigned long long& unit)
 {
-	const std::vector<std::string> headers = {"", "# one header line", "# first\n# second line of three\n# x\ty\tz"};
-	const int hlines[] = {0, 1, 3};
+	// (also headers that contain a blank line, a whitespace-only line, only a blank, and numeric tokens)
+	const std::vector<std::string> headers = {"", "# one header line", "# first\n# second line of three\n# x\ty\tz", "# top\n\n# after a blank line", "# top\n \t \n# after a whitespace line", " ", "# 3 columns 12 rows 1e5 -7"};
+	const int hlines[] = {0, 1, 3, 3, 3, 1, 1};
 	for(int rows : {1, 2, 3, 7, 200})
 		for(int cols : {1, 2, 5, 12})
 			for(int pat = 0; pat < 4; pat++)
-				for(int h = 0; h < 3; h++)
+				for(int h = 0; h < (int)headers.size(); h++)
 					for(int ua = 0; ua < 3; ua++)
 					{
+						if(h >= 3 && !(pat == 0 || (rows == 7 && cols == 5))) continue;	// the extra header shapes: one value pattern is enough
 						if(!mc::mine(unit++)) continue;
 						VV data(rows, V(cols));
 						for(int i = 0; i < rows; i++)
@@ -88,10 +90,12 @@ static void lists_and_functions(unsigned long long& unit)
 {
 	for(int n : {1, 2, 7, 200})
 		for(int pat = 0; pat < 4; pat++)
-			for(int h = 0; h < 2; h++)
+			for(int h = 0; h < 5; h++)
 				for(double dim : {1.0, 1e-30, 1e30})
 				{
 					if(!mc::mine(unit++)) continue;
+					static const char* LH[] = {"", "# header", "# top\n\n# after a blank line", " ", "# 5 values 1e3"};
+					static const int LHN[] = {0, 1, 3, 1, 1};
 					V data(n);
 					bool ok = true;
 					for(int i = 0; i < n; i++) { data[i] = pattern_value(pat, i, 3); ld q = fabsl((ld)data[i] / dim); if(q != 0 && (q < 1e-300L || q > 1e300L)) ok = false; }
@@ -99,7 +103,7 @@ static void lists_and_functions(unsigned long long& unit)
 					std::string key = "n=" + std::to_string(n) + ",pattern=" + std::to_string(pat) + ",header=" + std::to_string(h) + ",unit=" + mc::dec(dim);
 					std::string path = g_dir + "/c20_list_" + std::to_string(getpid()) + ".txt";
 					V back;
-					if(mc::library_exits([&]() { Export_List(path, data, dim, h ? "# header" : ""); back = Import_List(path, dim, h); })) { fail("list", key, "terminated_process", "ended the process"); continue; }
+					if(mc::library_exits([&]() { Export_List(path, data, dim, LH[h]); back = Import_List(path, dim, LHN[h]); })) { fail("list", key, "terminated_process", "ended the process"); continue; }
 					g_cases++;
 					g_trans += 2;
 					if(back.size() != data.size()) { fail("list", key, "length_changed", std::to_string(back.size()) + " values read back"); continue; }
